@@ -1464,6 +1464,20 @@ func c10Sources(tier string, fn func(kind, src string)) {
 	for _, src := range c10Runaway {
 		fn("runaway", src)
 	}
+	// the same operation first with fitting operands, then with operands that do not fit
+	// (whatever the first use left behind): a Zn error, not a crash
+	tmpls := []string{"{}-{}", "{#.2}：{}", "{#+}{#.1%}{#.2E}"}
+	for _, t := range tmpls {
+		n := strings.Count(t, "{")
+		for k := 0; k <= n+1; k++ {
+			if k == n {
+				continue
+			}
+			fit, bad := strings.TrimSuffix(strings.Repeat("1.5，", n), "，"), strings.TrimSuffix(strings.Repeat("1.5，", k), "，")
+			fn("reuse", "令T = “"+t+"”\n令A = T % 【"+fit+"】\n令B = T % 【"+bad+"】\n输出【A，B】")
+			fn("reuse", "如何排？\n    输入各项\n    输出“"+t+"” % 各项\n令A = （排：【"+fit+"】）\n令B = （排：【"+bad+"】）\n输出【A，B】")
+		}
+	}
 	f2 := "导入《@文件》\n导入《@JSON》\n如何F2？\n    输入V\n    输出V\n"
 	for _, body := range bodies {
 		kinds := []struct{ pre, call string }{
@@ -1697,7 +1711,7 @@ func init() {
 			"guards seam: Validate{Exact,Least,All}Params / AssertElement / AssertPropertyElement over type-string patterns x value tuples. " +
 			"program seam: one-call programs (method, property read / write, function call, 新建, 抛出, index read / write, every binary operator spelling, 如果 / 每当 / 遍历) with every argument slot over the full pool, arity <= 2 (method calls in quick: two arguments only on receivers whose type owns the method, one argument on every receiver; thorough: every receiver, and arity 3 over the sub-pool), values through 输入, result bound to a name and returned (and returned directly for arity <= 1). " +
 			"varinput seam: every text 甲 = <rhs> with <= 3 units over 14 units joined by 5 separators, two assignments joined by ； / newline, 8 target forms. " +
-			"source seam: 8 programs whose calls never end (the outcome is a Zn error, the worker survives); every callable (function, method, 何为 getter, constructor) whose body is 1..2 statements over 12 forms that may yield no value or fail (nested definitions, declarations, loops and branches that never run, 输出, 显示, a malformed template, a failing file read, a failing JSON parse) x 12 ways of consuming the call's result; every history of <= 3 (4 thorough) operations (re-copy, 写入 / 移除 / index write, 后增 / 左移 / 新增) through three names holding copies of one 3-key dictionary or one 3-item list, then 显示, format and rendering of all three (list histories also change the unbound result of 合并; both kinds also put a collection into itself - directly, inside a literal, through a second name - before everything is displayed, compared and formatted); every walk (以K、V遍历) of a 3-key dictionary / 3-item list whose body, at pass 1..3, applies one or two of 6 operations to the collection being walked (remove each key, insert, overwrite, replace / shift, append, prepend, element write, replace) while every pass uses the loop variables in one of 5 ways. " +
+			"source seam: templates formatted first with a fitting and then with a non-fitting argument list (directly and inside a method); 8 programs whose calls never end (the outcome is a Zn error, the worker survives); every callable (function, method, 何为 getter, constructor) whose body is 1..2 statements over 12 forms that may yield no value or fail (nested definitions, declarations, loops and branches that never run, 输出, 显示, a malformed template, a failing file read, a failing JSON parse) x 12 ways of consuming the call's result; every history of <= 3 (4 thorough) operations (re-copy, 写入 / 移除 / index write, 后增 / 左移 / 新增) through three names holding copies of one 3-key dictionary or one 3-item list, then 显示, format and rendering of all three (list histories also change the unbound result of 合并; both kinds also put a collection into itself - directly, inside a literal, through a second name - before everything is displayed, compared and formatted); every walk (以K、V遍历) of a 3-key dictionary / 3-item list whose body, at pass 1..3, applies one or two of 6 operations to the collection being walked (remove each key, insert, overwrite, replace / shift, append, prepend, element write, replace) while every pass uses the loop variables in one of 5 ways. " +
 			"Enumeration is an odometer over table indexes, so cases are distinct; a case is non-trivial when the member's own code was reached (outcome is a value, or an error other than member-not-found / name-not-defined).",
 		Assumptions: []string{
 			"a Zn error of any kind is an acceptable outcome; only a Go panic, a nil Element on success (also inside a returned collection, or bound to a name that then reads as undefined), a hang or a dead worker are violations",
